@@ -977,3 +977,38 @@ func trustedTemplateTypes(fact string, props []string, dirs ...string) {
 	sort.Strings(out)
 	emitStrList(fact, props, out)
 }
+
+// compositeLitKeys: the field names given in every composite literal of type <pkg>.<typ> inside one function
+// (e.g. mapstructure.DecoderConfig{DecodeHook: …, Result: …}) — each literal as one comma-joined string.
+func compositeLitKeys(fact string, props []string, rel, recv, fn, pkg, typ string) {
+	fd := findFunc(parse(rel), recv, fn)
+	if fd == nil || fd.Body == nil {
+		fail(fact, props, fmt.Sprintf("function %s.%s not found in %s", recv, fn, rel))
+		return
+	}
+	var out []string
+	ast.Inspect(fd.Body, func(x ast.Node) bool {
+		cl, ok := x.(*ast.CompositeLit)
+		if !ok {
+			return true
+		}
+		se, ok := cl.Type.(*ast.SelectorExpr)
+		if !ok || se.Sel.Name != typ {
+			return true
+		}
+		if id, ok := se.X.(*ast.Ident); !ok || id.Name != pkg {
+			return true
+		}
+		var keys []string
+		for _, e := range cl.Elts {
+			if kv, ok := e.(*ast.KeyValueExpr); ok {
+				if k, ok := kv.Key.(*ast.Ident); ok {
+					keys = append(keys, k.Name)
+				}
+			}
+		}
+		out = append(out, strings.Join(keys, ","))
+		return true
+	})
+	emitStrList(fact, props, out)
+}
